@@ -79,16 +79,25 @@ func vAdversarial(r *rand.Rand, raw string, vocab []string, variant int) string 
 	lines := strings.Split(strings.TrimRight(raw, "\n"), "\n")
 	words := strings.Fields(raw)
 	switch variant % 7 {
-	case 5: // the end of the copy damaged, then (after a short gap) its tail phrase again
+	case 5: // damage near the end of the copy, then (after a short gap) its tail phrase again
 		if len(words) > 40 {
-			k := 2 + r.Intn(6)
 			w := append([]string{}, words...)
-			for i := len(w) - k; i < len(w); i++ {
-				w[i] = vocab[r.Intn(len(vocab))]
+			for i, n := 0, 1+r.Intn(3); i < n; i++ {
+				pos := len(w) - 1 - r.Intn(vMin(30, len(w)/2))
+				if r.Intn(2) == 0 {
+					w[pos] = vOOVWord(r)
+				} else {
+					w[pos] = vocab[r.Intn(len(vocab))]
+				}
 			}
-			tail := words[len(words)-(8+r.Intn(25)):]
-			gap := strings.Fields(vOOVLine(r))[:1+r.Intn(3)]
-			return strings.Join(w, " ") + " " + strings.Join(gap, " ") + " " + strings.Join(tail, " ") + "\n"
+			src := words
+			if r.Intn(2) == 0 {
+				src = w // the repeated tail carries the same damage
+			}
+			tail := src[len(src)-(6+r.Intn(30)):]
+			gap := strings.Fields(vOOVLine(r))[:r.Intn(4)]
+			sep := []string{" ", "\n", " \n"}[r.Intn(3)]
+			return strings.Join(w, " ") + sep + strings.Join(gap, " ") + sep + strings.Join(tail, " ") + "\n"
 		}
 		return raw
 	case 6: // the head of the copy damaged, preceded by its head phrase
@@ -215,7 +224,7 @@ func TestVerifC02(t *testing.T) {
 			cases = append(cases, cdesc{"edited", []int{800, 800, 700, 900, 500}[(rep+di)%5], di, rep})
 		}
 	}
-	nadv := e.pick(700, 6000)
+	nadv := e.pick(1400, 9000)
 	for k := 0; k < nadv; k++ {
 		cases = append(cases, cdesc{"adversarial", []int{800, 700, 900, 500}[k%4], rr.Intn(len(docs)), k})
 	}
